@@ -11,6 +11,15 @@ def run(tier):
         res = vlib.run_tlc(mod, cfg, "C18/mc", workers=8, timeout=900, collect_prints=False)
         vlib.expect_model_ok(res, cfg)
         c.add_model(mod + "/" + cfg, res)
+    # Cluster.tla: the kernel hands each datagram to any worker; every valid request is answered exactly once under the
+    # single long-term identity; the dying-worker variant violates the liveness property (self-test)
+    cfg = "MC_Cluster_quick.cfg" if tier == "quick" else "MC_Cluster.cfg"
+    res = vlib.run_tlc("Cluster", cfg, "C18/mc_cluster", workers=8, timeout=1800, collect_prints=False)
+    vlib.expect_model_ok(res, "Cluster.tla")
+    c.add_model("Cluster/" + cfg, res)
+    m = vlib.run_tlc("Cluster", "MC_Cluster_dies.cfg", "C18/mc_cluster_selftest", workers=8, timeout=600, collect_prints=False)
+    if not m.violated:
+        raise vlib.ToolError("Cluster.tla self-test: dying workers should violate EveryoneAnswered")
     pc.run_scenarios(c, pc.c18_scenarios(tier, c.seed), "load")
     c.rule = ("code->spec: the real server binary with num_workers {1,2,4,16} (thorough {1,2,4,8,16}) and 4..64 concurrent closed-loop reference clients of "
               "mixed protocols plus bursts from 24 sockets; every request is a round of Trace_Server (exactly one reply, verified under the single long-term "
